@@ -21,6 +21,8 @@ import (
 	"fmt"
 	"io"
 	"math"
+	"os"
+	"path/filepath"
 	"reflect"
 	"sort"
 	"strconv"
@@ -662,6 +664,32 @@ func checkExport(c ExportCase) error {
 		var buf bytes.Buffer
 		if err := rag.NewExporterWithConfig(e.build()).Export(chunks, &buf); err != nil || buf.String() != out {
 			return fmt.Errorf("Export(w) differs from ExportToString (err=%v)", err)
+		}
+		// ... and so is the export to a file, also to a path that already holds a longer, earlier export
+		dir, err := os.MkdirTemp("", "verif-c14-")
+		if err != nil {
+			return fmt.Errorf("INFRA: %v", err)
+		}
+		defer os.RemoveAll(dir)
+		path := filepath.Join(dir, "export.out")
+		if err := rag.NewChunkCollection(chunks).ExportToFile(path, e.build()); err != nil {
+			return fmt.Errorf("ExportToFile failed: %v", err)
+		}
+		if got, _ := os.ReadFile(path); string(got) != out {
+			return fmt.Errorf("ExportToFile wrote %d bytes that differ from ExportToString (%d bytes)", len(got), len(out))
+		}
+		if len(chunks) > 1 {
+			fewer := chunks[:len(chunks)/2]
+			want, err := rag.NewExporterWithConfig(e.build()).ExportToString(fewer)
+			if err != nil {
+				return fmt.Errorf("ExportToString failed: %v", err)
+			}
+			if err := rag.NewExporterWithConfig(e.build()).ExportToFile(fewer, path); err != nil {
+				return fmt.Errorf("second ExportToFile failed: %v", err)
+			}
+			if got, _ := os.ReadFile(path); string(got) != want {
+				return fmt.Errorf("ExportToFile over an earlier, longer export: the file holds %d bytes, the export of the %d chunks is %d bytes (stale tail?)", len(got), len(fewer), len(want))
+			}
 		}
 	case "preset":
 		cc := rag.NewChunkCollection(chunks)
